@@ -214,7 +214,6 @@ const (
 // common parameters must match, user, ttl, method and maddr must either appear
 // in both URIs or in none and any present header must appear in both URIs to
 // match).
-//
 func URICmpShort(u1 *PsipURI, buf1 []byte, u2 *PsipURI, buf2 []byte,
 	flags URICmpFlags) bool {
 	return ((flags&URICmpSkipScheme) != 0 || (u1.URIType == u2.URIType)) &&
@@ -431,7 +430,9 @@ func ParseURI(uri SIPStr, puri *PsipURI) (ErrorURI, int) {
 				}
 			case '0', '1', '2', '3', '4', '5', '6', '7', '8', '9':
 				// in case this might be the port no, compute it
-				portNo = portNo*10 + int(c-'0')
+				if portNo <= 65535 { // else: already too big, avoid overflow
+					portNo = portNo*10 + int(c-'0')
+				}
 			case '[', ']', ':':
 				return ErrURIBadChar, i
 			default:
@@ -504,7 +505,9 @@ func ParseURI(uri SIPStr, puri *PsipURI) (ErrorURI, int) {
 		case uPort:
 			switch c {
 			case '0', '1', '2', '3', '4', '5', '6', '7', '8', '9':
-				portNo = portNo*10 + int(c-'0')
+				if portNo <= 65535 { // else: already too big, avoid overflow
+					portNo = portNo*10 + int(c-'0')
+				}
 			case ';':
 				puri.Port.Set(s, i)
 				if portNo > 65535 {
